@@ -26,9 +26,10 @@ type lifeScen struct {
 	rejected   bool
 	timedOut   bool
 	gi         *model.GroupInfo
-	parkedLost bool     // a parked genuine share was not handed to the party after it registered
-	overStored bool     // an over-long signer id sits among the messages round0 stored
-	pending    []string // id hex of honest senders whose messages sit in Processor.futureMessages[hash]
+	otherKeys  map[string]bool // distinct other keys filed while genuine shares were parked under the block hash
+	parkedLost bool            // a parked genuine share was not handed to the party after it registered
+	overStored bool            // an over-long signer id sits among the messages round0 stored
+	pending    []string        // id hex of honest senders whose messages sit in Processor.futureMessages[hash]
 	npending   int
 }
 
@@ -70,8 +71,8 @@ func (r *runner) lifeObserve(s *scen, strayKey common.Hash, at string) string {
 		stored = len(s.round.State().Future)
 	}
 	l := s.life
-	return fmt.Sprintf("st=%s stored=%d pf=%d k0=%s to=%s rej=%s | %s", stage, stored,
-		s.round.StrayFuture(common.ToHex(s.hash.Bytes())), b01(s.round.Key0Done()), b01(l.timedOut), b01(l.rejected), proc)
+	return fmt.Sprintf("st=%s stored=%d pf=%d keys=%d k0=%s to=%s rej=%s | %s", stage, stored,
+		s.round.StrayFuture(common.ToHex(s.hash.Bytes())), s.round.ParkedKeys(), b01(s.round.Key0Done()), b01(l.timedOut), b01(l.rejected), proc)
 }
 
 // afterAccept waits for what the reaper's changeId step started asynchronously.
@@ -163,6 +164,7 @@ func (r *runner) lifeLines(s *scen, lines []string, stopAtTimeout bool) []string
 			r.st.Wire[b.wireKind]++
 			r.st.Filed[b.f["filed"][:1]]++
 			r.st.IdEnc[b.f["idenc"]]++
+			r.st.Branches[b.branch]++
 			r.emit("pkt "+b.sym, func() string {
 				stage := s.lifeStage()
 				m := decode(b.wire)
@@ -171,6 +173,12 @@ func (r *runner) lifeLines(s *scen, lines []string, stopAtTimeout bool) []string
 					r.st.DecodeDrops++
 				} else {
 					strayKey = m.BlockHash
+					if (stage == "none" || stage == "r0") && m.BlockHash != s.hash && l.npending > 0 {
+						if l.otherKeys == nil {
+							l.otherKeys = map[string]bool{}
+						}
+						l.otherKeys[string(m.BlockHash.Bytes())] = true
+					}
 					if (stage == "none" || stage == "r0") && m.BlockHash == s.hash {
 						l.npending++
 						if b.honestOf >= 0 && s.pk[b.honestOf] {
@@ -218,7 +226,12 @@ func (r *runner) lifeLines(s *scen, lines []string, stopAtTimeout bool) []string
 func (r *runner) runLife(sc script, _ interface{}) {
 	s := r.lifeSetup(sc)
 	r.lifeLines(s, sc.lines[1:], false)
-	if r.search && s.life.parkedLost {
+	if r.search && s.life.parkedLost && len(s.life.otherKeys) >= 50 {
+		// narrow classifier of the recorded finding: the parked cache (LRU, 50 keys) was overrun
+		r.addViol(s, "parked-shares-evicted-by-lru",
+			fmt.Sprintf("genuine shares parked under the block hash were evicted from Processor.futureMessages (LRU of 50 keys) by messages filed under %d other hashes before the party registered", len(s.life.otherKeys)),
+			map[string]interface{}{"state": r.lifeObserve(s, s.hash, "end")})
+	} else if r.search && s.life.parkedLost {
 		r.addViol(s, "parked-honest-share-not-delivered",
 			"a genuine share filed under the block hash before the party was registered there was not handed to the party afterwards (dropped or withheld while parked)",
 			map[string]interface{}{"state": r.lifeObserve(s, s.hash, "end")})
